@@ -250,6 +250,8 @@ class FakeSock(object):
         n = len(data) if self.accept is None else min(self.accept, len(data))
         if self.accept is not None:
             self.accept = None
+        if n == 0 and data:
+            raise BlockingIOError(11, 'Resource temporarily unavailable')   # back-pressure: not writable now
         self.sent += data[:n]
         return n
 
